@@ -41,3 +41,5 @@ fields("MultiVariable", _children="list[Variable]")
 fields("Bee", trials="int")
 fields("Bat", loudness="float", pulse_rate="float", velocity="list[val]")
 fields("ContinuousMultiVariable", lower_bounds="list[float]", upper_bounds="list[float]")
+fields("MultiObjectiveVariable", lower_bounds="list[float]", upper_bounds="list[float]")
+fields("Variable", name="str")
